@@ -7,4 +7,4 @@ CONSTANTS
   MaxChurn = 1
   RecordHist = FALSE
 INVARIANT AcceptorFresh SecretsDistinct ReplayedNeverIdentified BoundToSession NoImpersonationAtAcceptor DialerSeesSessionEnd AttackerNeverOther
-PROPERTIES IdentityFinal
+PROPERTIES IdentityFinal ClosedStaysClosed
